@@ -3,6 +3,7 @@ force the interesting classes by construction (no assume/filter)."""
 from hypothesis import strategies as st
 
 I = st.integers(0, 999)
+REUSE = st.one_of(st.just(0), st.just(0), st.integers(1, 1 << 16))    # non-zero: take a name already used in another directory
 NONE = st.none()
 
 LEN = st.one_of(st.sampled_from([0, 0, 1, 2047, 2048, 2049, 4095, 4096, 4097, 10000, 70000]), st.integers(0, 5000))
@@ -32,18 +33,18 @@ def op(kind, **fields):
 
 
 def add_fp(d=I, ns=NSMASK, length=LEN, rsz=RSZ, ck=st.just(0), file=st.sampled_from([False] * 9 + [True])):
-    return op('add_fp', d=d, ns=ns, len=length, sz=SZ, rsz=rsz, usz=st.integers(0, 4), lead=I, salt=I, mode=FMODE, ck=ck, file=file)
+    return op('add_fp', d=d, ns=ns, len=length, sz=SZ, rsz=rsz, usz=st.integers(0, 4), lead=I, salt=I, mode=FMODE, ck=ck, file=file, reuse=REUSE)
 
 
 def add_dir(d=I, ns=NSMASK, rsz=RSZ, sz=SZ):
-    return op('add_dir', d=d, ns=ns, sz=sz, rsz=rsz, usz=st.integers(0, 4), lead=I, salt=I, mode=DMODE)
+    return op('add_dir', d=d, ns=ns, sz=sz, rsz=rsz, usz=st.integers(0, 4), lead=I, salt=I, mode=DMODE, reuse=REUSE)
 
 
 rm_file = op('rm_file', b=I, j=I)
 rm_dir = op('rm_dir', d=I, ns=st.sampled_from([7, 7, 7, 7, 1, 2, 4, 3]))
-add_link = op('add_link', b=I, j=I, to=I, d=I, sz=SZ, rsz=RSZ, usz=st.integers(0, 4), lead=I, salt=I)
+add_link = op('add_link', b=I, j=I, to=I, d=I, sz=SZ, rsz=RSZ, usz=st.integers(0, 4), lead=I, salt=I, reuse=st.one_of(st.just(0), st.integers(1, 1 << 16)))
 rm_link = op('rm_link', b=I, j=I)
-add_sym = op('add_sym', d=I, form=st.integers(0, 3), jol=st.booleans(), tgt=I, sz=SZ, rsz=RSZ, usz=st.integers(0, 4), lead=I, salt=I)
+add_sym = op('add_sym', d=I, form=st.integers(0, 3), jol=st.booleans(), tgt=I, sz=SZ, rsz=RSZ, usz=st.integers(0, 4), lead=I, salt=I, reuse=REUSE)
 rm_sym = op('rm_sym', i=I)
 hide = op('hide', i=I, via=st.integers(0, 1), on=st.sampled_from([1, 1, 0]))
 dup_pvd = op('dup_pvd')
